@@ -50,6 +50,7 @@ pub struct Outcome {
 pub fn run_query(ctl: &Arc<Ctl>, sc: &Value, ns: usize, sched: Option<&Vec<Value>>, delays: Option<(u64, u64)>, use_iter: bool, abandon: bool, hold_ms: u64) -> Outcome {
     let plan = Plan::new();
     plan.metric_limit.store(jint(sc, "limit"), Ordering::SeqCst);
+    plan.post_best.store(sc.get("post").and_then(|p| p.as_str()) == Some("best"), Ordering::SeqCst);
     let mut store: DStore = TrackStoreBuilder::new(ns)
         .default_attributes(Attrs::new(plan.clone()))
         .metric(Metric::new(100, plan.clone()))
@@ -245,7 +246,7 @@ pub fn record(opts: &Opts) {
         }
         let limit = [1, 3, 10][rng.gen_range(0..3)];
         let sc = json!({"tracks": tracks, "cands": cands, "owned": owned, "cls": rng.gen_range(0..2),
-                        "baked": rng.gen_bool(0.4), "limit": limit});
+                        "baked": rng.gen_bool(0.4), "limit": limit, "post": if k % 3 == 2 { "best" } else { "all" }});
         let o = run_query(&ctl, &sc, ns, None, Some((seed * 1000 + k as u64, max_us)), k % 2 == 1, k % 5 == 4, 0);
         if o.hang {
             hangs += 1;
